@@ -21,6 +21,9 @@ type Event struct {
 	idx  int
 	ins  ssa.Instruction
 	Pos  token.Pos
+	// spliced in from an unreviewed helper called at (blk, idx): the helper's own event and facts
+	inner *Event
+	inl   *FuncFacts
 }
 
 func (e *Event) Head() string { return e.Kind + ":" + e.Name }
@@ -41,6 +44,13 @@ func (f *FuncFacts) Events() []*Event {
 			var e *Event
 			switch x := in.(type) {
 			case *ssa.Call:
+				if hf := f.c.inlined(x.Common()); hf != nil {
+					for _, ie := range hf.Events() {
+						out = append(out, &Event{Pure: ie.Pure, Kind: ie.Kind, Name: ie.Name, Args: ie.Args,
+							blk: b, idx: i, ins: in, Pos: ie.Pos, inner: ie, inl: hf})
+					}
+					continue
+				}
 				e = f.callEvent("call", x.Common())
 			case *ssa.Go:
 				e = f.callEvent("go", x.Common())
@@ -111,10 +121,38 @@ func (f *FuncFacts) callEvent(kind string, cc *ssa.CallCommon) *Event {
 
 // evDominates: event a is executed before b on every path reaching b.
 func evDominates(a, b *Event) bool {
+	if a.blk == b.blk && a.idx == b.idx && a.inner != nil && b.inner != nil && a.inl == b.inl {
+		return evDominates(a.inner, b.inner) // both inside the same helper call
+	}
+	if !innerAlways(a) {
+		return false // a happens only on some ways through the helper it sits in
+	}
 	if a.blk == b.blk {
 		return a.idx < b.idx
 	}
 	return a.blk.Dominates(b.blk)
+}
+
+// evCanFollow: event a can execute after event b.
+func evCanFollow(a, b *Event) bool {
+	if a.blk == b.blk && a.idx == b.idx && a.inner != nil && b.inner != nil && a.inl == b.inl {
+		return evCanFollow(a.inner, b.inner)
+	}
+	if a.blk == b.blk && a.idx > b.idx {
+		return true
+	}
+	seen := map[*ssa.BasicBlock]bool{}
+	stack := append([]*ssa.BasicBlock{}, b.blk.Succs...)
+	for len(stack) > 0 {
+		x := stack[len(stack)-1]
+		stack = stack[:len(stack)-1]
+		if seen[x] {
+			continue
+		}
+		seen[x] = true
+		stack = append(stack, x.Succs...)
+	}
+	return seen[a.blk]
 }
 
 // matchEvents: events whose Head equals sel, or whose Full has sel as prefix.
@@ -146,6 +184,13 @@ func (f *FuncFacts) eventContext(e *Event) []string {
 	for _, c := range ctx {
 		atoms = append(atoms, c.atom)
 	}
+	if e.inner != nil {
+		for _, a := range e.inl.eventContext(e.inner) {
+			if a != "always" {
+				atoms = append(atoms, a)
+			}
+		}
+	}
 	atoms = simplifyAtoms(atoms)
 	if len(atoms) == 0 {
 		atoms = []string{"always"}
@@ -159,7 +204,9 @@ func (f *FuncFacts) eventContext(e *Event) []string {
 func (f *FuncFacts) mustPass(evs []*Event, unless []string) string {
 	removed := map[*ssa.BasicBlock]bool{}
 	for _, e := range evs {
-		removed[e.blk] = true
+		if innerAlways(e) {
+			removed[e.blk] = true
+		}
 	}
 	cut := map[[2]int]bool{}
 	if len(unless) > 0 {
